@@ -17,17 +17,8 @@ CONSTANTS
   Dist = 3
   KD = 2
   Export = TRUE
-INVARIANT TelescopingPartial
 INVARIANT Telescoping
-INVARIANT CoefNonNeg
-INVARIANT OwnTemperaturesOnly
-INVARIANT IsothermalIdentity
 INVARIANT HotColdBounds
-INVARIANT FluxIdentityIffWeights
-INVARIANT FluxBounds
-INVARIANT EclipseIsothermalRatio
-INVARIANT EclipseBounds
-INVARIANT DirectProportional
 INVARIANT FitsInv
 CONSTRAINT Emit
 CHECK_DEADLOCK FALSE
